@@ -7,26 +7,26 @@ TRUST = ("trusted: rustc/cargo, the chain simulator's wasmd/bank/tokenfactory/IC
          "the hand-written bech32/protobuf/wide-arithmetic oracles (self-tested on known vectors at start-up); bounded depth, actors, amounts")
 
 CHECKS = {
- "C01": ("explicit-state BFS over the real contract in a chain simulator, ghost ledger of moved tokens vs State query, both token-factory builds", "3"),
- "C02": ("explicit-state BFS over the real contract in a chain simulator, bank balance vs obligations on every state", "3"),
- "C03": ("explicit-state BFS over the real contract in a chain simulator, token-factory supply / balances / IBC deliveries on every state and stake, both builds", "3"),
- "C04": ("exhaustive grids over the two rate functions (small cube + 131^3 boundary lattice up to 2^128) against independent 256-bit arithmetic, execute-level min/zero/expected grid, plus BFS history monitor on every stake/submit", "3"),
- "C05": ("explicit-state BFS over all withdrawal orders against a reference request table", "3"),
- "C06": ("explicit-state BFS with deadline-boundary time alphabet against a reference lifecycle", "3"),
- "C07": ("exhaustive fault enumeration (ack ok/err/timeout/submit failure/stray acks/recoveries) inside the BFS against a reference packet table", "3"),
- "C08": ("per-state probe battery (14 message kinds x 14 principals + Withdraw callers) on every state of an exhaustive BFS that changes admin, monitors, staker, collector and channel", "3"),
- "C09": ("exhaustive grid of derive_intermediate_sender against a hand-written ibc-hooks derivation (python-pinned known answer), all accepted (channel,sender) pairs for injectivity, end-to-end through the simulator's own ibc-hooks in a BFS that moves channel/staker/collector", "3"),
- "C10": ("per-state differential probes on every state of an exhaustive BFS: the halted twin must refuse what the un-halted state accepts, storage diff of halt/resume, resume argument grid, fresh instances under 6 configurations", "3"),
- "C11": ("explicit-state BFS over reward/fee-config/withdraw histories with independent fee arithmetic", "3"),
- "C12": ("complete BFS over nominate/revoke/accept by 4 principals with 7d-1s/7d/7d+1s time moves, both contracts, in lock-step with a 3-variable reference machine", "3"),
- "C13": ("exhaustive grid: all allow-lists (<=2 routes of <=2 hops) x all candidate routes (<=3 hops) x coins x limits x senders through the real treasury execute, emitted message decoded by an independent protobuf reader", "3"),
- "C14": ("exhaustive single+pair field corruption of valid configs on instantiate and on UpdateConfig with all 32 section subsets, judged by an independent well-formedness predicate on the stored config", "3"),
- "C15": ("explicit-state BFS, oracle payload decoded and compared with rates recomputed from the post-state", "3"),
- "C18": ("exhaustive grid of pre-upgrade stores (legacy types) x stored versions x names x migrate messages with raw-storage diff and post-upgrade recovery in the simulator", "3"),
- "C19": ("two cargo-feature builds explore the same graphs; token-factory messages decoded by a hand-written reader; state/transition digests compared across builds", "3"),
- "C17": ("per-state exhaustive enumeration of (start_after, limit, status) triples, cursor chasing with every page size, id lists and users on every state of the withdrawal and IBC searches, against a full-scan reference", "3"),
- "C20": ("exhaustive per-type/per-field/per-value enumeration: syn-extracted schema of all 1328 messages, hand-written wire codec -> generated decode/encode -> byte comparison; pinned schema baseline; osmosis-std as independently generated reference; all 27 registered type URLs x Any round trips", "3"),
- "C16": ("explicit-state BFS from fresh instances under 6 configurations with every entry point under catch_unwind (overflow checks on) plus a hostile message/query/sudo/reply/migrate battery on every state of further searches", "3"),
+ "C01": ("explicit-state BFS over the real contract in a chain simulator (wire-level ibc-hooks callbacks, halt/resume, held packets, forced recoveries with repeated ids), ghost ledger of moved tokens vs State query on every state, both token-factory builds", "3"),
+ "C02": ("explicit-state BFS over the real contract in a chain simulator, bank balance vs obligations (batches, fees, refundable transfers) on every state, incl. forced recoveries of every receiver/denom group", "3"),
+ "C03": ("explicit-state BFS over the real contract in a chain simulator, token-factory supply / balances / IBC deliveries on every state and stake, stray callbacks on near-miss channels, both builds", "3"),
+ "C04": ("exhaustive grids over the two rate functions (small cube, 131^3 boundary lattice up to 2^128, quotient lattice around word boundaries) against independent 256-bit arithmetic; execute-level min/zero/expected/multi-coin grid; execute-level resume->stake->unstake->submit lattice; BFS history monitor on every stake/submit incl. batches of 120 and 1100 requesters", "3"),
+ "C05": ("explicit-state BFS over all withdrawal orders (plain and with funds attached) against a reference request table; scripted crowded batches (120 / 1100 requesters) and long histories (150 batches) judged step by step; legacy batches without request counter", "3"),
+ "C06": ("explicit-state BFS with deadline-boundary time alphabet (sub-second block times) against a reference lifecycle, cross-checked by a second engine; deployed-bytes comparison on pinned stores; storage-read count of SubmitBatch against the number of requesters", "3"),
+ "C07": ("exhaustive fault enumeration (ack ok/err/timeout/submit failure/stray and near-miss-channel acks/reply faults/recoveries of every shape incl. ordered id lists with repeats, 32-byte receivers, 140 refundable packets) inside the BFS against a reference packet table, cross-checked by a second engine", "3"),
+ "C08": ("per-state probe battery (14 message kinds x ~35 principals incl. every configured address, twelve monitors, chain-level creator and migration admin, hook accounts through respelt channels) on every state of an exhaustive BFS that changes admin, monitors, staker, collector and channel; Withdraw callers; legacy batches without request counter", "3"),
+ "C09": ("exhaustive grid of derive_intermediate_sender against a hand-written ibc-hooks derivation (python-pinned known answer) incl. 200/700-byte senders, all accepted (channel,sender) pairs for injectivity, execute-level grid over every accepted spelling of channel x staker x collector x configured prefix, end-to-end through the simulator's own ibc-hooks in a BFS that moves channel/staker/collector", "3"),
+ "C10": ("per-state differential probes on every state of an exhaustive BFS (incl. stores with foreign history and left-over reply bookkeeping, a team of twelve monitors): the halted twin must refuse what the un-halted state accepts, raw storage diff of halt/resume, resume argument grid, fresh instances under 6 configurations, halted flag across all migration paths", "3"),
+ "C11": ("exhaustive grid reward x fee rate (incl. quotient points around word boundaries) x treasury x sender x configuration history, plus explicit-state BFS over reward/fee-config/withdraw histories, with independent fee arithmetic", "3"),
+ "C12": ("complete BFS over nominate/revoke/accept by 4 principals with 7d-1s/7d/7d+1s time moves x sub-second parts, four chain ids, interleaved unrelated admin operations and code upgrades, both contracts, in lock-step with a 3-variable reference machine; cross-checked by a second engine", "3"),
+ "C13": ("exhaustive grids: all allow-lists (<=2 routes of <=2 hops) x all candidate routes (<=3 hops) x coins x limits x senders; denom-spelling shape grid; allow-listed routes of 3-5 hops x every candidate one or two edits away; spend and update grids on a funded treasury behind a bank querier; emitted messages decoded by an independent protobuf reader", "3"),
+ "C14": ("exhaustive single+pair field corruption (~60 operators) of valid configs on instantiate and on UpdateConfig with all 32 section subsets from two base configurations (plain, protocol section replaced), judged by an independent well-formedness predicate on the stored config", "3"),
+ "C15": ("explicit-state BFS, oracle payload decoded and compared with rates recomputed from the post-state, oracle-less twin in lock-step on every transition, rejecting-oracle fault", "3"),
+ "C16": ("explicit-state BFS from fresh instances under 6 configurations with every entry point under catch_unwind (release profile, overflow checks on) plus a hostile message/query/sudo/reply/migrate battery (odd bech32 strings, multi-byte texts at every power-of-two offset, execution outside a transaction) on every state of further searches; execute-level boundary/quotient lattice", "3"),
+ "C17": ("per-state exhaustive enumeration of (start_after, limit, status) triples, cursor chasing with every page size, id lists and users on every state of the withdrawal and IBC searches (incl. 150-batch and 1100-requester histories) against a full-scan reference and the reference model; synthetic store of 2100 batches / packets; storage-read bound of the per-user query", "3"),
+ "C18": ("exhaustive grid of pre-upgrade stores (up to 250 consecutive and sparse records, legacy types) x 17 stored versions x 4 names x migrate messages with raw-storage diff and post-upgrade recovery in the simulator; deployed-bytes comparison on pinned 1.0.0- and 1.1.0-layout stores", "3"),
+ "C19": ("two cargo-feature builds explore the same graphs; token-factory messages decoded by a hand-written reader (constructor grid up to 128-character denoms); state/transition digests and the accept/reject vector of the configuration grid compared across builds", "3"),
+ "C20": ("exhaustive per-type/per-field/per-value enumeration: syn-extracted schema of all 1328 messages, hand-written wire codec -> generated decode/encode -> byte comparison; pinned schema baseline; osmosis-std as independently generated reference; every TypeUrl registration (found through trait resolution, names checked against doc comments and gRPC paths) x Any round trips", "3"),
 }
 NA = {}
 ALL = ["C%02d" % i for i in range(1, 21)]
